@@ -27,21 +27,29 @@ def _classify(job):
             return normal.sample(x, 1.0) - x
         return normal.sample(0.0, 1.0) + 0.0 * x
 
+    def zeros_like_out(g, k, x):
+        # the wrapped function may return lanes (a vmap further in): accumulators / other branches take its shape
+        # (abstract evaluation only: nothing is sampled or compiled)
+        try:
+            return jnp.zeros(jax.eval_shape(g, k, x).shape)
+        except Exception:
+            return jnp.zeros(())
+
     def wrap(ctx, g):
         if ctx == "jit":
             return jax.jit(g)
         if ctx == "scan":
-            return lambda k, x: jax.lax.scan(lambda c, _: (c + g(k, x), None), jnp.zeros(()), None, length=2)[0]
+            return lambda k, x: jax.lax.scan(lambda c, _: (c + g(k, x), None), zeros_like_out(g, k, x), None, length=2)[0]
         if ctx == "while":
-            return lambda k, x: jax.lax.while_loop(lambda c: c[0] < 2, lambda c: (c[0] + 1, c[1] + g(k, x)), (0, jnp.zeros(())))[1]
+            return lambda k, x: jax.lax.while_loop(lambda c: c[0] < 2, lambda c: (c[0] + 1, c[1] + g(k, x)), (0, zeros_like_out(g, k, x)))[1]
         if ctx == "fori_static":
-            return lambda k, x: jax.lax.fori_loop(0, 2, lambda i, c: c + g(k, x), jnp.zeros(()))
+            return lambda k, x: jax.lax.fori_loop(0, 2, lambda i, c: c + g(k, x), zeros_like_out(g, k, x))
         if ctx == "fori_dynamic":
-            return lambda k, x: jax.lax.fori_loop(0, jnp.asarray(x * 0 + 2, jnp.int32), lambda i, c: c + g(k, x), jnp.zeros(()))
+            return lambda k, x: jax.lax.fori_loop(0, jnp.asarray(x * 0 + 2, jnp.int32), lambda i, c: c + g(k, x), zeros_like_out(g, k, x))
         if ctx == "cond":
-            return lambda k, x: jax.lax.cond(jnp.asarray(True), lambda y: g(k, y), lambda y: 0.0 * y, x)
+            return lambda k, x: jax.lax.cond(jnp.asarray(True), lambda y: g(k, y), lambda y: 0.0 * y + zeros_like_out(g, k, x), x)
         if ctx == "switch":
-            return lambda k, x: jax.lax.switch(0, [lambda y: g(k, y), lambda y: 0.0 * y], x)
+            return lambda k, x: jax.lax.switch(0, [lambda y: g(k, y), lambda y: 0.0 * y + zeros_like_out(g, k, x)], x)
         if ctx == "grad":
             return lambda k, x: jax.grad(lambda y: g(k, y) * y)(x + 1.0) - 0.0
         if ctx == "remat":
